@@ -347,7 +347,9 @@ Decode(b) ==
     ELSE LET t == Bits(b, 0, 6)
          IN  IF t \notin Supported THEN [ErrorDecode EXCEPT !.t = t]
              ELSE IF 8 * Len(b) < Needed(b, t) THEN [ErrorDecode EXCEPT !.t = t]
-             ELSE [class |-> IF Len(b) \in LegalBytes(t) THEN "exact" ELSE "loose",
+             \* (a type 5 message cut anywhere after its mandatory 302 bits is named by C14 - truncated destination,
+             \* missing DTE - so every such length must decode, not only the two complete ones)
+             ELSE [class |-> IF Len(b) \in LegalBytes(t) \/ (t = 5 /\ Len(b) <= 54) THEN "exact" ELSE "loose",
                    v |-> VariantOf(t), t |-> t, fields |-> FieldsOf(b, t)]
 
 --------------------------------------------------------------------------
@@ -392,6 +394,13 @@ FieldViol(d, obs, known) ==
                                    THEN {<<"C11", d.name, "slot offset presence">>} ELSE {})
               \* a truncated text field: the characters present (C14) decoded character by character (C13)
               ELSE IF d.prop = "C13C14" THEN {<<"C13", d.name, "value">>, <<"C14", d.name, "value">>}
+              \* a safety text of another length than the characters present: the element count (C14) as well
+              ELSE IF d.name = "text" /\ d.prop = "C13" /\ (\A x \in d.vals : Len(x) # Len(obs))
+                   THEN {<<"C13", d.name, "value">>, <<"C14", d.name, "length">>}
+              \* one-bit enumerations are flags as well (C04)
+              ELSE IF d.prop = "C12" /\ d.name \in {"dte", "assigned_mode", "cs_unit", "position_accuracy", "fix_quality",
+                                                    "accuracy", "gnss_position_status"}
+                   THEN {<<"C12", d.name, "value">>, <<"C04", d.name, "flag value">>}
               ELSE {<<d.prop, d.name, "value">>}
     ELSE IF d.kind = "f"
     THEN IF IsInt(obs) /\ Close(obs, d.raw, d.P, d.Q) THEN {} ELSE {<<"C10", d.name, "value">>}
